@@ -38,6 +38,9 @@ Rules (keys are rule:unit:function:construct):
         host conversion whose target holds every value of the destination that the path condition admits (unsigned 64-bit: not through int64_t)
   R07.16 a consumer that puts the folded 64-bit value into a narrower object that outlives the expression (record field, argument, store through a pointer)
         has compared the 64-bit value with bounds inside the narrower type and diagnosed before (C11 6.7.2.2p2, 6.7.2.1p4, 6.7.5p3, 6.7.6.2p1, 6.7.9p6)
+  R07.17 every consumer of eval_double (typed def-use relation from each call outside the folder's own arms, through locals, parameters, helpers and return
+        values): the value is held only in host floating types that keep all 64 digits until the single conversion to the type of the object it is stored in,
+        and is not rounded before a comparison / truth test / integer conversion / arithmetic
   (R07.5 also: the operands run-time evaluation always evaluates - left operand of the comma operator included - are required constant by is_const_expr)
 
 The folder (parse.c eval2 / eval_double / is_const_expr) is summarised once per
@@ -264,6 +267,10 @@ def run(P, rep, tier):
                        'the way of an address constant (label + addend) from the folder into the image - relocation records created, copied with a compound literal\'s image and displaced by the '
                        'position of the copy, threaded, emitted - by those of C05 R05.1/R05.3/R05.5/R05.7 re-issued as R07.14. Conversions of a floating value to an integer type inside the folder '
                        'and at the static back end are judged for the range of the host type they go through (R07.15). '
+                       'Every call of eval_double outside the folder\'s own arms is followed along the typed def-use relation (conversions, locals, parameters, helpers, return values) to the store / '
+                       'comparison / truth test / integer conversion it ends in: at most one rounding, directly to the type of the object stored, none before a comparison or conversion (R07.17). '
+                       'R07.10 also demands that both operands of + can carry the symbol of an address constant (the second only when the first left the slot empty) and that an operand whose truth value '
+                       'is taken is folded with some slot where address constants are allowed. '
                        'Equality of values for whole expressions is the consequence by '
                        'structural induction and is not decided here.')
     rep.assumptions += ['typing relation of each kind as produced by add_type (R01.2)',
@@ -285,9 +292,11 @@ def run(P, rep, tier):
     r0716(F, P, rep)
     r079(F, rep)
     r0710(F, rep)
+    r0710_truth(F, rep)
     r0711(F, rep)
     r0713(F, P, rep)
     r0715(F, rep)
+    r0717(F, P, rep)
     back = _static_back_end(P, tier)
     r0712(P, rep, tier, back)
     r0714(P, rep, tier, back)
@@ -1491,6 +1500,25 @@ RELOC_THROUGH = {'eval2': {'ND_ADD': 'lhs', 'ND_SUB': 'lhs', 'ND_COND': None, 'N
                            'ND_DEREF': 'lhs'},     # *p of array type is the address p itself (a[1] of a 2-D array); other derefs are rejected by the arm
                  'eval_rval': {'ND_DEREF': 'lhs', 'ND_MEMBER': 'lhs'}}      # None: the selected arm
 RELOC_DIRECT = {'eval2': ('ND_VAR', 'ND_LABEL_VAL'), 'eval_rval': ('ND_VAR',)}
+# further operands that enter the result with coefficient +1 and can be an address although new_add did not move them to the left: an address converted to an
+# integer type is an integer operand, `1 + (long)&x` keeps its order (gcc and the generated code accept both orders; + is commutative)
+RELOC_ALSO = {'eval2': {'ND_ADD': ('rhs',)}, 'eval_rval': {}}
+
+
+def _slot_tested_empty_at(p):
+    """number of events that preceded the decision `*label == 0` on path p (the slot for the symbol was found empty); None when the path has not made it"""
+    for i, (a, t) in enumerate(p.guards):
+        a = strip_widening(a)
+        empty = None
+        if a == ('deref', LABEL):
+            empty = not t
+        elif a[0] == 'un' and a[1] == '!' and strip_widening(a[2]) == ('deref', LABEL):
+            empty = t
+        elif a[0] == 'bin' and a[1] in ('==', '!=') and strip_widening(a[2]) == ('deref', LABEL) and strip_widening(a[3]) == ('int', 0):
+            empty = t if a[1] == '==' else not t
+        if empty:
+            return p.gpos[i] if i < len(p.gpos) else None
+    return None
 ADDRESS_WIDE = ('ptr', 'long', 'ulong')
 
 
@@ -1546,7 +1574,7 @@ def r0710(F, rep):
                            where='%s:%d' % (U, u.fn(fname).line))
                 continue
             w = '%s:%d' % (U, line_of_kind(u, fname, F.E[kind]))
-            bad = {}; und = None
+            bad = {}; und = None; slots = {}
             for p in ps:
                 # a store through the out-parameter needs the pointer tested on this path (eval() passes NULL)
                 for e in p.events:
@@ -1560,6 +1588,21 @@ def r0710(F, rep):
                 for e in calls:
                     a = e[2][0] if e[2] else None
                     who.append(a[2] if a and a[0] == 'fld' and a[1] == NODE else e[1])
+                also = RELOC_ALSO.get(fname, {}).get(kind, ())
+                if also and p.guard_of(LABEL) is not False:
+                    for e in p.events:
+                        if e[0] == 'call' and e[1] in ('eval2', 'eval_rval') and len(e[2]) > 1 and e[2][0][0] == 'fld' and e[2][0][1] == NODE:
+                            slots.setdefault(e[2][0][2], set()).add('slot' if e[2][1] == LABEL else 'none' if e[2][1] == ('int', 0) else 'other')
+                if also and len(calls) == 2 and not stores and sorted(who) == sorted((RELOC_THROUGH[fname][kind],) + tuple(also)):
+                    # two operands can carry the symbol (not both): the second is offered the slot only after the first was seen to have left it empty
+                    at = _slot_tested_empty_at(p)
+                    i1, i2 = p.events.index(calls[0]), p.events.index(calls[1])
+                    if at is not None and i1 < at <= i2:
+                        cs = [_coeff(p.outcome[1], ('call', e[1], e[2])) for e in calls]
+                        if cs != [1, 1]:
+                            bad['relocated-operand-not-additive:' + ','.join(sorted(who))] = (
+                                '%s of %s returns %s: an operand that can carry the symbol does not enter the result with coefficient +1' % (fname, kind, show(p.outcome[1])))
+                        continue
                 if len(calls) + len(stores) > 1:
                     names = sorted(who) + ['direct-store'] * len(stores)
                     bad['relocation-overwritten:' + ','.join(names)] = (
@@ -1590,7 +1633,7 @@ def r0710(F, rep):
                     want = 'then' if d else 'els'
                 if not calls and not stores and p.guard_of(('call', 'is_flonum', (ty_of(child(want)),))) is True:
                     continue          # the path established that the operand is floating: it cannot denote an address
-                if stores or len(calls) != 1 or who[0] != want or calls[0][1] not in ('eval2', 'eval_rval'):
+                if stores or len(calls) != 1 or (who[0] != want and who[0] not in also) or calls[0][1] not in ('eval2', 'eval_rval'):
                     bad['address-operand-without-relocation:' + want] = (
                         '%s of %s does not hand the relocation out-parameter to the folder on `%s` (it goes to: %s): an address constant in that operand '
                         '(`&x + 1`, `(long)&x`, `c ? &a : &b`, `&s.m`) is rejected or loses its symbol' % (fname, kind, want, ','.join(who) or 'nothing'))
@@ -1608,12 +1651,94 @@ def r0710(F, rep):
                     if rest != want_rest:
                         bad['wrong-addend'] = ('%s of %s returns %s: the addend next to the operand\'s address must be %s' % (
                             fname, kind, show(p.outcome[1]), 'node->member->offset' if want_rest else 'nothing'))
+            for c in (((RELOC_THROUGH[fname][kind],) + tuple(RELOC_ALSO.get(fname, {}).get(kind, ()))) if RELOC_ALSO.get(fname, {}).get(kind) else ()):
+                got = slots.get(c, set())
+                if 'slot' in got:
+                    continue
+                if 'other' in got:
+                    und = und or ('%s of %s folds `%s` with a slot for the symbol that is not the out-parameter: whether the symbol reaches the caller is not decided' % (fname, kind, c))
+                    continue
+                bad['address-operand-without-relocation:' + c] = (
+                    '%s of %s never hands the relocation out-parameter to the folder on `%s` (%s): this operand enters the sum with coefficient +1 like the other one and can be an '
+                    'address converted to an integer type, which new_add leaves where it is: `int x; static long y = 1 + (long)&x;` is rejected ("not a compile-time constant") while '
+                    '`(long)&x + 1` is accepted; gcc and the generated code accept both (+ is commutative)' % (fname, kind, c, 'it is folded without a slot' if got else 'it is not folded'))
             for construct, msg in sorted(bad.items()):
                 rep.ob('R07.10', '%s:%s:%s/%s' % (U, fname, kind, construct), False, msg, where=w)
             if und and not bad:
                 rep.undecided('R07.10', '%s:%s:%s/relocation' % (U, fname, kind), und, where=w)
             elif not bad:
                 rep.ob('R07.10', '%s:%s:%s/relocation' % (U, fname, kind), True, '', where=w)
+
+
+TRUTH_OPERANDS = {'ND_NOT': ('lhs',), 'ND_LOGAND': ('lhs', 'rhs'), 'ND_LOGOR': ('lhs', 'rhs'), 'ND_COND': ('cond',), 'ND_CAST': ('lhs',)}
+
+
+def r0710_truth(F, rep):
+    """Where address constants are allowed (the folder was given a slot for the symbol: a static initializer) an operand whose truth value is taken may be
+    one: `static _Bool b = &x;`, `(_Bool)&x`, `!&x`, `&x && 1`, `&x ? 2 : 3` (C11 6.6p7/p9, 6.3.1.2: the address of an object compares unequal to null, the value
+    is 1; gcc, clang and the generated code agree).  The folder can only say so if the operand is folded with some slot for its symbol: folded with no slot at
+    all the address reaches the arm of the variable, which diagnoses "not a compile-time constant" - a valid initializer is rejected."""
+    u = F.u
+    lacking = {}; n = 0; und = None
+    for kind, kids in sorted(TRUTH_OPERANDS.items()):
+        try:
+            ps = F.int_paths(kind)
+        except Unsupported as e:
+            und = 'cannot summarise eval2 of %s: %s' % (kind, e); continue
+        if kind == 'ND_CAST':
+            ps = F.facts(node='bool').select(ps)
+        for c in kids:
+            seen = set()
+            for p in ps:
+                if p.outcome[0] != 'ret' or p.guard_of(LABEL) is False:
+                    continue
+                if p.guard_of(('call', 'is_flonum', (ty_of(child(c)),))) is True:
+                    continue
+                for e in p.events:
+                    if e[0] == 'call' and e[1] in ('eval2', 'eval_rval') and len(e[2]) > 1 and e[2][0] == child(c):
+                        seen.add('none' if strip_widening(e[2][1]) == ('int', 0) else 'slot')
+            if not seen:
+                continue
+            n += 1
+            if 'slot' not in seen:
+                lacking.setdefault(kind, []).append(c)
+    # the static back end: an object / bit-field of type _Bool takes the truth value of its initializer
+    if 'write_gvar_data' in u.functions and 'bool' in F.trec:
+        rec = F.trec['bool']
+        TY = ('sym', 'ty')
+
+        def hook(base, f, rec=rec):
+            if base == TY and f in ('kind', 'size', 'is_unsigned'):
+                return ('int', int(rec[f]))
+            return None
+        try:
+            seen = set()
+            for p in SymExec(F.P, u, opaque=FOLD, field_hook=hook).run('write_gvar_data', [('sym', 'cur'), ('sym', 'init'), TY, ('sym', 'buf'), ('sym', 'offset')]):
+                if p.outcome[0] != 'ret' or not any(e[0] == 'store' for e in p.events):
+                    continue
+                if p.guard_of(('call', 'is_flonum', (ty_of(INIT_EXPR),))) is True:
+                    continue
+                for e in p.events:
+                    if e[0] == 'call' and e[1] in ('eval2', 'eval_rval') and len(e[2]) > 1 and e[2][0] == INIT_EXPR:
+                        seen.add('none' if strip_widening(e[2][1]) == ('int', 0) else 'slot')
+            if seen:
+                n += 1
+                if 'slot' not in seen:
+                    lacking.setdefault('static-_Bool-object', []).append('initializer')
+        except Unsupported as e:
+            und = 'cannot summarise write_gvar_data for a _Bool object: %s' % e
+    key = '%s:eval2:truth-of-address-constant' % U
+    w = '%s:%d' % (U, u.fn('eval2').line)
+    if lacking:
+        rep.ob('R07.10', '%s/folded-without-slot:%s' % (key, ','.join(sorted(lacking))), False,
+               'where address constants are allowed (static initializer: the folder has a slot for the symbol) the operand whose truth value is taken is folded with no slot at all in: %s: '
+               'an address constant there reaches the arm of the variable, which answers "not a compile-time constant": `int x; static _Bool b = &x;`, `static _Bool b = (_Bool)&x;`, '
+               '`static int n = !&x;`, `= &x && 1;`, `= &x ? 2 : 3;` are rejected; the value is 1 (C11 6.3.1.2, the address of an object is not null), gcc and clang accept them' % (
+                   ', '.join('%s (%s)' % (k, '/'.join(v)) for k, v in sorted(lacking.items()))), where=w, facts={'positions': {k: v for k, v in lacking.items()}})
+    elif und or n < 5:
+        rep.undecided('R07.10', key, und or 'only %d operand positions whose truth value is taken were found' % n, where=w)
+    else:
+        rep.ob('R07.10', key, True, '', where=w)
 
 
 # ----------------------------------------------------------------- R07.11 ---
@@ -2898,3 +3023,102 @@ def r0716(F, P, rep):
                     rep.undecided('R07.16', base, und, where=where)
                 else:
                     rep.ob('R07.16', base, True, '', where=where)
+
+
+# ----------------------------------------------------------------- R07.17 ---
+def _flo_closure(u):
+    """eval_double and the functions it inlines (everything it reaches without passing through a folder entry): their roundings are the arms' own (R07.13)"""
+    seen = {'eval_double'}; st = ['eval_double']
+    while st:
+        f = st.pop()
+        fd = u.functions.get(f)
+        if fd is None:
+            continue
+        for c in fd.walk():
+            if c.kind == 'CallExpr':
+                g = c.callee()
+                if g in u.functions and g not in seen and g not in FOLD:
+                    seen.add(g); st.append(g)
+    return seen
+
+
+def r0717(F, P, rep):
+    """eval_double returns the value of the folded expression exactly, in a long double: the expression may have any arithmetic type, so the value may need all 64
+    digits (a long double expression; a long / unsigned long expression such as 9007199791611905).  The run-time evaluation converts that value ONCE, directly to
+    the type of the object it initialises (cvtsi2ss, fstps ...), compares it unrounded, tests it against zero unrounded, converts it to an integer unrounded.  A consumer
+    that parks the value in a narrower floating object first (`double val = eval_double(e); *(float *)p = val;`) rounds twice: values within a double ulp of a float
+    midpoint land on the midpoint and are then rounded to even - one ulp off the run-time result; a value rounded before a comparison / truth test / integer
+    conversion changes the outcome (1e-400L != 0).  Decided on the typed def-use relation of every call of eval_double outside the folder's own arms."""
+    from ..lib_c07_flo import FloFlow, Unknown
+    u = F.u
+    rep.rule('R07.17', 'every consumer of the floating folder: from a call of eval_double (outside eval_double\'s own arms) to the place where the value comes to rest - through '
+                       'conversions, locals, parameters, helper functions and return values - the value passes only through host floating types that hold every long double exactly, '
+                       'until the single conversion to the type of the object it is stored in; it is not rounded at all before it is compared, tested against zero, converted to an '
+                       'integer type or used in arithmetic (the generated code converts / compares the unrounded value once)', floor=5)
+    closure = _flo_closure(u)
+    fl = FloFlow(u)
+    p_src = max(PREC.values())
+    groups = {}          # key -> [n ok, {construct: message}, undecided, where]
+    nsites = 0
+    for fname, fd in sorted(u.functions.items()):
+        if fname in closure:
+            continue
+        for c in fd.calls('eval_double'):
+            nsites += 1
+            where = '%s:%d' % (U, c.line)
+            try:
+                terms = fl.trace(c, stop_fns=closure)
+            except Unknown as e:
+                g = groups.setdefault('%s:%s:eval_double->flow' % (U, fname), [0, {}, None, where])
+                g[2] = 'where the value of eval_double() goes is not described by the def-use relation: %s' % e
+                continue
+            if not terms:
+                g = groups.setdefault('%s:%s:eval_double->flow' % (U, fname), [0, {}, None, where])
+                g[2] = 'the value of eval_double() reaches no store, comparison or conversion'
+                continue
+            for t in terms:
+                tn = tshow(t.T).replace(' ', '-') if t.T is not None else ''
+                sink = t.kind + ('-' + tn if tn else '')
+                key = '%s:%s:eval_double->%s' % (U, fname, sink)
+                if t.fn is not None and t.fn.name != fname:
+                    key += '@' + t.fn.name
+                g = groups.setdefault(key, [0, {}, None, where])
+                if any(T[1] not in PREC for T in t.chain) or (t.kind == 'store' and t.T[1] not in PREC):
+                    g[2] = 'a floating format of unknown precision on the way to the %s' % t.what
+                    continue
+                rs = _roundings([(T, None) for T in t.chain], p_src)
+                names = [PREC_NAME[r] for r in rs]
+                tw = '%s:%d' % (U, t.node.line)
+                if t.kind == 'store':
+                    p_t = PREC[t.T[1]]
+                    if len(rs) > 1:
+                        g[1]['rounded-twice:' + '-'.join(n.replace(' ', '-') for n in names)] = (
+                            '%s: the value eval_double() returned for %s is rounded to %s and then to %s on its way to the %s (%s): two roundings differ from the single conversion of the '
+                            'generated code for values within one %s ulp of a %s rounding midpoint: `static float f = 9007199791611905;` holds 0x1p+53, the run-time conversion '
+                            '(and gcc) 0x1.000002p+53; the same for long double initializers such as 0x1.000001000000001p0L' % (
+                                fname, c.args()[0].src() if c.args() else '?', names[0], names[-1], t.what, tw, names[0], names[-1]), tw)
+                    elif rs and rs[0] < p_t:
+                        g[1]['rounded-to-%s-stored-as-%s' % (names[0].replace(' ', '-'), PREC_NAME[p_t].replace(' ', '-'))] = (
+                            '%s: the value eval_double() returned is rounded to %s before it is stored in the %s of type %s (%s): digits the object can hold, and holds at run time, are lost' % (
+                                fname, names[0], t.what, PREC_NAME[p_t], tw), tw)
+                    else:
+                        g[0] += 1
+                elif rs:
+                    verb = {'compare': 'compared', 'truth': 'tested against zero', 'to-int': 'converted to an integer type', 'arith': 'used in arithmetic'}[t.kind]
+                    g[1]['rounded-to-%s-before-%s' % (names[-1].replace(' ', '-'), t.kind)] = (
+                        '%s: the value eval_double() returned is rounded to %s before it is %s (%s, %s): the generated code uses the unrounded value of the expression\'s type '
+                        '(`1e-400L` rounds to 0 in double and is no longer true; `0x1.00000000000008p0L > 1.0` values that differ beyond double compare equal; '
+                        '`(long)9007199254740993.0L` becomes 9007199254740992)' % (fname, names[-1], verb, t.what, tw), tw)
+                else:
+                    g[0] += 1
+    if nsites < 5:
+        rep.undecided('R07.17', '%s:consumers-of-eval_double' % U, 'only %d calls of eval_double outside the folder found' % nsites)
+    for key, (n, bad, und, where) in sorted(groups.items()):
+        for cst, (m, tw) in sorted(bad.items()):
+            rep.ob('R07.17', '%s/%s' % (key, cst), False, m, where=tw)
+        if bad:
+            continue
+        if und:
+            rep.undecided('R07.17', key, und, where=where)
+        else:
+            rep.ob('R07.17', key, True, '', where=where)
